@@ -24,9 +24,10 @@ Ctxs == {0, 1, 2}       \* 0: trusted host context (like the CLI), 1: untrusted 
 VARIABLES granted, loaded, ctx, hist
 vars == <<granted, loaded, ctx, hist>>
 
+\* "deinit": the host also unloads everything (bloc_deinit_plugins) and a trusted context imports again
 ModSeq == CHOOSE q \in [1..Cardinality(Modules) -> Modules] : \A a, b \in DOMAIN q : a # b => q[a] # q[b]
-Prefix == IF Alphabet = "perm" THEN [j \in DOMAIN ModSeq |-> [a |-> "import", c |-> 0, m |-> ModSeq[j], ok |-> TRUE]] ELSE <<>>
-Init == /\ granted = {} /\ loaded = (IF Alphabet = "perm" THEN Modules ELSE {})
+Prefix == IF Alphabet \in {"perm", "deinit"} THEN [j \in DOMAIN ModSeq |-> [a |-> "import", c |-> 0, m |-> ModSeq[j], ok |-> TRUE]] ELSE <<>>
+Init == /\ granted = {} /\ loaded = (IF Alphabet \in {"perm", "deinit"} THEN Modules ELSE {})
         /\ ctx = [c \in Ctxs |-> [alive |-> c # 2, trusted |-> c = 0, objs |-> {}]]
         /\ hist = Prefix
 
@@ -35,6 +36,10 @@ Rec(a) == hist' = Append(hist, a)
 \* host API
 Unban(m) == /\ granted' = granted \cup {m} /\ UNCHANGED <<loaded, ctx>> /\ Rec([a |-> "unban", m |-> m])
 ClearPermissions == /\ granted' = {} /\ UNCHANGED <<loaded, ctx>> /\ Rec([a |-> "clear"])
+\* bloc_deinit_plugins: every module is unloaded and the permissions are forgotten with the registry.  The host does this only
+\* while no context holds an object of a module (assumed precondition: the objects' code would be gone).
+Deinit == /\ \A c \in Ctxs : ctx[c].objs = {}
+          /\ granted' = {} /\ loaded' = {} /\ UNCHANGED ctx /\ Rec([a |-> "deinit"])
 Clone(c, d) == /\ ctx[c].alive /\ ~ctx[d].alive
                /\ ctx' = [ctx EXCEPT ![d] = [alive |-> TRUE, trusted |-> ctx[c].trusted, objs |-> ctx[c].objs]]
                /\ UNCHANGED <<granted, loaded>> /\ Rec([a |-> "clone", c |-> d, from |-> c])
@@ -67,6 +72,10 @@ Next == /\ Len(hist) < MaxLen + Len(Prefix)
                 \/ ClearPermissions
                 \/ \E m \in Modules, f \in {"args", "default"} : Ctor(1, m, "top", f)
                 \/ \E b \in BOOLEAN : SetTrust(1, b)
+           ELSE IF Alphabet = "deinit"
+           THEN \/ \E m \in Modules : Unban(m) \/ ImportByName(0, m) \/ Ctor(1, m, "top", "args")
+                \/ ClearPermissions
+                \/ Deinit
            ELSE \/ \E m \in Modules : Unban(m)
                 \/ ClearPermissions
                 \/ Clone(1, 2) \/ Clone(0, 2)
